@@ -22,6 +22,19 @@
 //!       -> `0 <LINES> 8 <REPARSE> <NP> <slow>`         single program
 //!       (<slow> = 1 when the first parse took more than 3 s; never compared with the model)
 //!
+//!   typ <pdl type> <limit>
+//!       a complete type (PDL type syntax `u` `s..` `p..` `w<d>`) -> `Final`'s Display with × replaced
+//!       by * as string_serialize does -> tokens; then `t := witness : 1 -> <that text>` through
+//!       Forest::parse and the target type of `t`.  limit > 0: Display writes into a sink that stops
+//!       after <limit> bytes (2^(2^31): the text is complete after 13 bytes, the walk is not)
+//!       -> `<ntok> <TOKENS> 8 <TYPE RESULT> <same>`    same = the parsed target has the TMR of the input
+//!   tytext <hex of a type text>
+//!       `t := witness : 1 -> <text>` through Forest::parse -> `<TYPE RESULT>`
+//!       TOKENS      = `1` 1 | `2` 2 | `3 y` 2^y | `4` ? | `5` ( | `6` ) | `7` + | `8` * | `9` anything else
+//!       TYPE RESULT = `0 <ty_nums of the target of t>` | `1 <code of the first error>` | `9` panic
+//!   textcmr <fam> <hex of UTF-8 source> <program 0|1> <pdl>
+//!       the root CMR of `main` of the parsed text against the CMR of the PDL program built through
+//!       the construction API -> `0 <eq>` | `1 <nerr> <k> <code>*k` (text) | `2 <code>` (pdl) | `9`
 //!   LINES   = one group per definition line of the rendered text, in text order:
 //!             `7 <kind> <name> <operands>`
 //!             kind: 0 iden 1 unit 2 injl 3 injr 4 take 5 drop 6 comp 7 case 8 pair 9 assertl
@@ -591,9 +604,142 @@ fn text_case<J: Jet>(fam: char, src: &str) -> Vec<u128> {
     out
 }
 
+/// tokens of a printed type (independent reader; see module documentation)
+fn type_tokens(text: &str) -> Vec<u128> {
+    let b: Vec<char> = text.chars().collect();
+    let mut out = vec![];
+    let mut n = 0u128;
+    let mut i = 0;
+    while i < b.len() {
+        let c = b[i];
+        i += 1;
+        match c {
+            ' ' => continue,
+            '1' => out.push(1),
+            '2' => {
+                if i < b.len() && b[i] == '^' {
+                    // the lexer rule: 2^ then a nonzero digit then digits
+                    let mut j = i + 1;
+                    let mut v: u128 = 0;
+                    while j < b.len() && b[j].is_ascii_digit() && j - i < 30 {
+                        v = v * 10 + b[j].to_digit(10).unwrap() as u128;
+                        j += 1;
+                    }
+                    if j > i + 1 && b[i + 1] != '0' {
+                        out.extend([3, v]);
+                        i = j;
+                    } else {
+                        out.push(9);
+                        // the rest of the lexeme
+                        i += 1;
+                        while i < b.len() && (b[i] == '-' || b[i].is_ascii_digit()) {
+                            i += 1;
+                        }
+                    }
+                } else {
+                    out.push(2);
+                }
+            }
+            '?' => out.push(4),
+            '(' => out.push(5),
+            ')' => out.push(6),
+            '+' => out.push(7),
+            '*' => out.push(8),
+            _ => out.push(9),
+        }
+        n += 1;
+    }
+    let mut r = vec![n];
+    r.extend(out);
+    r
+}
+
+/// Display into a buffer that refuses to grow beyond `limit` bytes (0 = no limit)
+struct LimitedSink {
+    buf: String,
+    limit: usize,
+}
+
+impl std::fmt::Write for LimitedSink {
+    fn write_str(&mut self, s: &str) -> std::fmt::Result {
+        self.buf.push_str(s);
+        if self.limit > 0 && self.buf.len() >= self.limit {
+            Err(std::fmt::Error)
+        } else {
+            Ok(())
+        }
+    }
+}
+
+/// `t := witness : 1 -> <text>`: the target type of `t` as the parser read it
+fn parsed_target(text: &str) -> (Vec<u128>, Option<simplicity::Tmr>) {
+    let src = format!("t := witness : 1 -> {}", text);
+    match guarded(|| Forest::parse::<Core>(&src)) {
+        None => (vec![9], None),
+        Some(Err(e)) => (vec![1, e.iter().next().map(err_code).unwrap_or(0)], None),
+        Some(Ok(f)) => match f.roots().get("t") {
+            Some(t) => {
+                let mut v = vec![0];
+                let tgt = &t.arrow().target;
+                ty_nums(tgt, &mut v);
+                (v, Some(tgt.tmr()))
+            }
+            None => (vec![1, 0], None),
+        },
+    }
+}
+
+fn typ_case(pdl_ty: &str, limit: usize) -> Vec<u128> {
+    use std::fmt::Write;
+    let fin = parse_ty(pdl_ty);
+    let mut sink = LimitedSink { buf: String::new(), limit };
+    let _ = write!(sink, "{}", fin);
+    let shown = sink.buf.replace('×', "*");
+    let mut out = type_tokens(&shown);
+    out.push(8);
+    let (res, tmr) = parsed_target(&shown);
+    out.extend(res);
+    out.push((tmr == Some(fin.tmr())) as u128);
+    out
+}
+
+fn textcmr_case<J: Jet>(src: &str, program: bool, pdl: &str) -> Vec<u128> {
+    let forest = match guarded(|| Forest::parse::<J>(src)) {
+        None => return vec![9],
+        Some(Err(e)) => return err_nums(&e),
+        Some(Ok(f)) => f,
+    };
+    let main = match forest.roots().get("main") {
+        Some(m) => m,
+        None => return vec![1, 0, 0],
+    };
+    let specs = parse_prog(pdl);
+    match commit_of(&specs, program) {
+        Ok(c) => vec![0, (c.cmr() == main.cmr()) as u128],
+        Err(e) => vec![2, err_code_prog(&e)],
+    }
+}
+
 fn run_inner(t: &[&str]) -> Vec<u128> {
+    match t[0] {
+        "typ" => return typ_case(t[1], t.get(2).map(|x| x.parse().unwrap()).unwrap_or(0)),
+        "tytext" => {
+            let bytes = unhex(t[1]);
+            return parsed_target(&String::from_utf8_lossy(&bytes)).0;
+        }
+        _ => {}
+    }
     let fam = t[1].chars().next().unwrap();
     match t[0] {
+        "textcmr" => {
+            let bytes = unhex(t[2]);
+            let src = String::from_utf8_lossy(&bytes).to_string();
+            if fam == 'c' {
+                textcmr_case::<Core>(&src, t[3] == "1", t[4])
+            } else {
+                textcmr_case::<Elements>(&src, t[3] == "1", t[4])
+            }
+        }
         "classes" => classes_case(t[2] == "1", t[3]),
         "prog" => {
             if fam == 'c' {
